@@ -208,6 +208,49 @@ VPrimGrey(e) ==
        IsGreyIn(p) /\ InPrimDomain(p) /\ ~(AllNum3(o) /\ Cmp(Spread3(o), Add(RelTol5(p[1]), SpecEps)) <= 0)})
 
 -------------------------------------------------------------------------------------
+\* C19  ev = "mat": every public operation of the 3x3 algebra on one operand set, f32 or f64
+VMat(e) ==
+  IF ~(MatIn2(e.A) /\ MatIn2(e.B) /\ VecIn2(e.v) /\ VecIn2(e.u) /\ InBox2(e.x)) THEN <<"C19.domain">> ELSE
+  LET rx == Recip(e.x)
+      det == Det3(e.A)
+      bad == <<
+        <<"mul_vec",  VecOk(e.mul_vec, MatVec(e.A, e.v))>>,
+        <<"mul_arr",  VecOk(e.mul_arr, MatVec(e.A, e.v))>>,
+        <<"mul_mat",  MatOk(e.mul_mat, MatMul(e.A, e.B))>>,
+        <<"transpose", e.tr = Transpose(e.A)>>,
+        <<"transpose-involution", e.ttb = e.Ab>>,
+        <<"col-transpose", e.colt = e.v>>,
+        <<"cross",    VecOk(e.cross, Cross3(e.v, e.u))>>,
+        <<"dot",      NumOk(e.dot, Dot3(e.v, e.u))>>,
+        <<"vec-scalar_div", VecOk(e.vdiv, ScaleVec(e.v, rx))>>,
+        <<"component_mul",  VecOk(e.cmul, CMul(e.v, e.u))>>,
+        <<"mat-scalar_div", MatOk(e.mdiv, <<ScaleVec(e.A[1], rx), ScaleVec(e.A[2], rx), ScaleVec(e.A[3], rx)>>)>>,
+        <<"identity-left",  e.idl = e.A>>,
+        <<"identity-right", e.idr = e.A>>,
+        <<"identity-vec",   e.idv = e.v>>,
+        <<"invert", Cmp(Abs(det), Half) < 0 \/
+                    (e.invp = 0 /\ MatAllNum(e.inv) /\ NearIdent(MatMul(e.A, e.inv)) /\ NearIdent(MatMul(e.inv, e.A)))>> >>
+      failing == {k \in 1..Len(bad) : ~bad[k][2]}
+  IN IF failing = {} THEN OK ELSE <<"C19." \o bad[MinOf(failing)][1], e.t>>
+
+\* C18  ev = "cbrt": s = list of <<x_me, t_me, t_bits, t(-x)_bits>>
+UlpBudget(b)  == IF SubSeq(b, 1, 4) = "fast" THEN 1 ELSE 2          \* C20: exact build = libm within 2 ulp
+VCbrt(e) == FirstBad("C18.cbrtf",
+  {i \in 1..Len(e.s) : LET r == e.s[i] IN
+     IsNormal(r[1]) /\ ~(CbrtWithin(r[1], r[2], UlpBudget(e.b)) /\ r[4] = NegBits(r[3]))})
+\* ev = "pow": s = list of <<x_me, y_fx, r_me>>
+PowTol(b, y) == IF SubSeq(b, 1, 4) = "fast" THEN PowTolFast(y) ELSE TwoUlpRel
+VPow(e) == FirstBad("C18.powf",
+  {i \in 1..Len(e.s) : LET r == e.s[i] IN PowInScope(r[1], r[2]) /\ ~PowOk(r[1], r[2], r[3], PowTol(e.b, r[2]))})
+\* ev = "exp": s = list of <<x_fx, x_me, r_me>>
+ExpTol(b) == IF SubSeq(b, 1, 4) = "fast" THEN ExpTolFast ELSE TwoUlpRel
+VExp(e) == FirstBad("C18.expf", {i \in 1..Len(e.s) : LET r == e.s[i] IN ~ExpOk(r[1], r[2], r[3], ExpTol(e.b))})
+\* ev = "mathtot": special values and random bit patterns through one helper; panics caught, exp2 hook summarised
+VMathTot(e) ==
+  IF e.panics # 0 THEN <<"C18.total-panic", e.fn, e.first_panic>>
+  ELSE FirstBad("C18.total-ub", {k \in 1..Len(e.hooks) : e.hooks[k].bad # 0})
+
+-------------------------------------------------------------------------------------
 Verdict(e) ==
   CASE e.ev = "dec"    -> VDec(e)
     [] e.ev = "enc"    -> VEnc(e)
@@ -218,6 +261,11 @@ Verdict(e) ==
     [] e.ev = "tfa"    -> VTfa(e)
     [] e.ev = "tfrt"   -> VTfrt(e)
     [] e.ev = "tfanchor" -> VTfAnchor(e)
+    [] e.ev = "mat"    -> VMat(e)
+    [] e.ev = "cbrt"   -> VCbrt(e)
+    [] e.ev = "pow"    -> VPow(e)
+    [] e.ev = "exp"    -> VExp(e)
+    [] e.ev = "mathtot" -> VMathTot(e)
     [] e.ev = "xyb"    -> VXyb(e)
     [] e.ev = "xybrt"  -> VXybRt(e)
     [] e.ev = "prim"   -> VPrim(e)
